@@ -31,7 +31,11 @@ impl IntrinsicInstrs {
         let iter_pairs = || defs.iter_intrinsic_instrs(language);
         // duplicates can be many-to-many so we iterate twice instead of making one map from the other
         let opcode_intrinsics = iter_pairs().collect::<IndexMap<_, _>>();
-        let intrinsic_opcodes = iter_pairs().map(|(k, v)| (v.value, k)).collect::<IndexMap<_, _>>();
+        // (a later definition for an opcode replaces the earlier one; the replaced pair must not linger in the reverse map,
+        //  or sugar would still be lowered to that opcode using the ABI of its new meaning)
+        let intrinsic_opcodes = iter_pairs()
+            .filter(|(opcode, kind)| opcode_intrinsics[opcode].value == kind.value)
+            .map(|(k, v)| (v.value, k)).collect::<IndexMap<_, _>>();
 
         let intrinsic_abi_props = {
             opcode_intrinsics.iter()
